@@ -234,5 +234,44 @@ func checkC14(w *fw.Worker, in c14Input) *fw.Violation {
 				fmt.Sprintf("%d effects: %s", before, run.Show(E[:before])), fmt.Sprintf("%d effects: %s", len(T), run.Show(T)), k)
 		}
 	}
+	// (iii) the flag raised inside a platform effect (Sleep / Read / Print ... - where a platform without a yielder raises it), with and
+	// without a Yielder installed: the run ends 'stopped'; only effects that the uninterrupted run performs without an evaluation step
+	// in between (same yield count) may still follow
+	if len(evs) == 0 {
+		for _, noY := range []bool{false, true} {
+			if noY && endless {
+				continue // without a yielder nothing bounds an endless program whose remaining part has no effects
+			}
+			for k := 1; k <= len(E) && k <= in.Horizon; k++ {
+				o := run.Run(in.Src, run.Opts{StopAtEffect: k, NoYielder: noY, Budget: in.Horizon + 10, Inputs: in.Inputs})
+				if w != nil {
+					w.Count("stop-in-effect-points", 1)
+				}
+				what := fmt.Sprintf("flag raised inside effect %d %q (yielder installed: %v)", k, E[k-1], !noY)
+				if o.Class == "gopanic" && strings.Contains(o.GoPanic, run.StopIgnored) {
+					return viol("stop-in-effect-ignored", "the run kept going after the platform raised the stop flag inside an effect: "+what, "stopped", "more than 25 further effects", k)
+				}
+				if o.Class == "gopanic" {
+					return viol("gopanic:"+run.PanicSite(o.GoPanic), "host panic after the stop flag was raised: "+what, "stopped", o.GoPanic, k)
+				}
+				T := o.Trace
+				if n := len(T); n > 0 && isSummary(T[n-1]) {
+					T = T[:n-1]
+				}
+				lax := k
+				for lax < len(E) && base.YieldsAt[lax] == base.YieldsAt[k-1] {
+					lax++
+				}
+				last := k == len(E) || lax == len(E)
+				if o.Class != "stopped" && !last {
+					return viol("stop-in-effect-not-stopped:"+o.Class, "the run did not end with the 'stopped' result: "+what, "stopped", o.Class+" "+o.Err+" "+run.Show(T), k)
+				}
+				if len(T) < k || len(T) > lax || run.TraceString(T) != run.TraceString(E[:len(T)]) {
+					return viol("stop-in-effect-effects", "effects after the stop flag was raised inside an effect: "+what,
+						fmt.Sprintf("%d..%d effects: %s", k, lax, run.Show(E[:lax])), fmt.Sprintf("%d effects: %s", len(T), run.Show(T)), k)
+				}
+			}
+		}
+	}
 	return nil
 }
